@@ -249,7 +249,8 @@ Fixpoint index_in (x : oid) (e : nat) (l : list vx) (n : nat) : nat :=
   end.
 Definition bond_index (d : sd) (x : oid) : nat :=
   match vx_of d x with Some v => index_in x (vedge v) (vxs d) 0 | None => 0 end.
-Definition sd_canon (t : rtree) (d : sd) : list (nat * list (nat * Q * nat * list nat)) * list (nat * nat) :=
+Definition canon := (list (nat * list (nat * Q * nat * list nat)) * list (nat * nat))%type.
+Definition sd_canon (t : rtree) (d : sd) : canon :=
   (map (fun v => (v, map (fun h => (hlabel h, Qred (hlam h), hgam h, map (bond_index d) (hverts h)))
                          (filter (fun h => Nat.eqb (hnode h) v) (hes d)))) (ids t),
    map (fun v => (v, length (filter (fun x => Nat.eqb (vedge x) v) (vxs d)))) (tl (ids t))).
